@@ -177,6 +177,17 @@ func stateVariants(spec *common.Spec, s *chain.Step, fs *flat.State, rng *rand.R
 			out = append(out, stateVariant{"pre-state:proposer-balance-near-zero", "valid", g})
 		}
 	}
+	if n := len(*s.Block.Body().Deposits); n > 0 && uint64(n) == uint64(spec.MAX_DEPOSITS) && fs.Eth1DepositIndex > 0 {
+		// an adopted eth1 vote whose deposit_count is below the deposits already processed (root unchanged):
+		// `deposit_count - eth1_deposit_index` underflows in the spec (uint64: the block is invalid)
+		g := clone()
+		g.Eth1Data.DepositCount = g.Eth1DepositIndex - 1
+		out = append(out, stateVariant{"pre-state:deposit-count-below-index", "operations.deposit_count_underflow", g})
+	} else if rng.Intn(6) == 0 && fs.Eth1DepositIndex > 0 {
+		g := clone()
+		g.Eth1Data.DepositCount = g.Eth1DepositIndex - 1
+		out = append(out, stateVariant{"pre-state:deposit-count-below-index", "operations.deposit_count_underflow", g})
+	}
 	if rng.Intn(4) == 0 && flat.ForkIndex(fs.Fork) >= 3 {
 		// the withdrawal sweep cursor elsewhere: the payload's withdrawals no longer match
 		g := clone()
